@@ -1214,7 +1214,8 @@ Definition session_prep_accept (rs1 : list resp) (rs2 : option (list resp)) (o :
   end.
 
 (* ------------------------------------------------------------------------------------ *)
-(* F17, second shape (clusters whose nodes announce DIFFERENT columns for a statement):     *)
+(* Known finding F25, class foreign-cached-metadata-without-ext (clusters whose nodes       *)
+(* announce DIFFERENT columns for a statement):                                            *)
 (* Session::prepare keeps the result metadata of ONE successful PREPARED and discards the   *)
 (* others; a node without the extension whose own answer at preparation announced other     *)
 (* columns gets its NO_METADATA rows decoded with the kept ones when cached metadata is on. *)
